@@ -106,7 +106,7 @@ func (p c06) history(c *fw.Ctx) []c06Step {
 	n := 6 + r.IntN(20)
 	val := func() *gt.Node { return gt.Lit(int64(100 + r.IntN(900))) }
 	for len(steps) < n+5 {
-		switch r.IntN(20) {
+		switch r.IntN(21) {
 		case 0:
 			v := c06Vars[r.IntN(len(c06Vars))]
 			isMap := r.IntN(2) == 0
@@ -157,6 +157,21 @@ func (p c06) history(c *fw.Ctx) []c06Step {
 				dst := other(mx)
 				add("plus", gt.Assign(dst, gt.In("+", gt.Id(mx), gt.Id(my))))
 				kinds[dst] = "m"
+			}
+		case 20: // + with an empty operand: the result is still a value of its own
+			v := c06Vars[r.IntN(len(c06Vars))]
+			if kinds[v] != "" {
+				dst := other(v)
+				var empty *gt.Node = gt.MkArr()
+				if kinds[v] == "m" {
+					empty = &gt.Node{K: gt.KMap}
+				}
+				if r.IntN(2) == 0 {
+					add("plus", gt.Assign(dst, gt.In("+", empty, gt.Id(v))))
+				} else {
+					add("plus", gt.Assign(dst, gt.In("+", gt.Id(v), empty)))
+				}
+				kinds[dst] = kinds[v]
 			}
 		case 11: // slice then keep
 			if v := pick("a"); v != "" {
@@ -232,6 +247,10 @@ func (p c06) check(c *fw.Ctx, steps []c06Step) (sig, detail string, nontrivial b
 	ref := gt.NewRef()
 	ss := newSession(false)
 	copies, muts := 0, 0
+	// which variables the statements so far allow to share storage under the open in-place finding: b = a, passing,
+	// nesting, slicing and rest() do; literals and the results of + and * never do
+	group := map[string]c06Store{}
+	nextGroup := 0
 	for k, st := range steps {
 		src := gt.RenderOne(st.node)
 		bigBefore := ref.BigInPlace
@@ -271,6 +290,8 @@ func (p c06) check(c *fw.Ctx, steps []c06Step) (sig, detail string, nontrivial b
 			if !gt.Same(want, o.val) {
 				size := "small"
 				switch {
+				case inPlaceBig && !c06Shares(group, v, st.node):
+					size = "big-unshared" // not explained by sharing through a copy: the result of + or a literal is affected
 				case inPlaceBig:
 					size = "big"
 				case bigBefore:
@@ -279,8 +300,143 @@ func (p c06) check(c *fw.Ctx, steps []c06Step) (sig, detail string, nontrivial b
 				return "inplace:" + st.op + ":" + size, fmt.Sprintf("after statement %d %q variable %s is %s, value semantics give %s", k, src, v, clip(valStr(o.val)), clip(valStr(want))), true
 			}
 		}
+		if !g.isErr {
+			c06Regroup(group, &nextGroup, st, func(name string) string {
+				v, ok := ref.Global.Lookup(name)
+				if !ok {
+					return ""
+				}
+				return fmt.Sprintf("%T", v)
+			})
+		}
 	}
 	return "", "", copies > 0 && muts > 0
+}
+
+// c06Mentions lists the variables a statement mentions.
+func c06Mentions(n *gt.Node, out map[string]bool) {
+	if n == nil {
+		return
+	}
+	if n.Name != "" {
+		out[n.Name] = true
+	}
+	for _, k := range n.Kids {
+		c06Mentions(k, out)
+	}
+	for _, k := range n.Body {
+		c06Mentions(k, out)
+	}
+	for _, k := range n.Else {
+		c06Mentions(k, out)
+	}
+}
+
+// c06Store is what a variable may share under the open in-place finding: its own top-level storage and the
+// storages reachable through its elements (a copy by +, * or a literal is shallow).
+type c06Store struct {
+	top  int
+	deep map[int]bool
+}
+
+func (st c06Store) all() map[int]bool {
+	out := map[int]bool{st.top: true}
+	for k := range st.deep {
+		out[k] = true
+	}
+	return out
+}
+
+// c06Shares tells if variable v may share storage with a variable the statement mentions.
+func c06Shares(group map[string]c06Store, v string, stmt *gt.Node) bool {
+	m := map[string]bool{}
+	c06Mentions(stmt, m)
+	if m[v] {
+		return true
+	}
+	g, ok := group[v]
+	if !ok {
+		return false
+	}
+	mine := g.all()
+	for x := range m {
+		if gx, ok := group[x]; ok {
+			for id := range gx.all() {
+				if mine[id] {
+					return true
+				}
+			}
+		}
+	}
+	return false
+}
+
+// c06Regroup updates the share model after a statement.
+func c06Regroup(group map[string]c06Store, next *int, st c06Step, kindOf func(string) string) {
+	n := st.node
+	if n.K != gt.KAssign {
+		return
+	}
+	rhs := n.Kids[0]
+	m := map[string]bool{}
+	c06Mentions(rhs, m)
+	deepOf := func(withTop bool) map[int]bool {
+		d := map[int]bool{}
+		for x := range m {
+			if g, ok := group[x]; ok {
+				for id := range g.deep {
+					d[id] = true
+				}
+				// array + map appends the map as one element: it is nested, not merged
+				if withTop || kindOf(x) != kindOf(n.Name) {
+					d[g.top] = true
+				}
+			}
+		}
+		return d
+	}
+	*next++
+	fresh := *next
+	first := func() (c06Store, bool) {
+		names := make([]string, 0, len(m))
+		for x := range m {
+			names = append(names, x)
+		}
+		sort.Strings(names)
+		for _, x := range names {
+			if g, ok := group[x]; ok {
+				return g, true
+			}
+		}
+		return c06Store{}, false
+	}
+	switch st.op {
+	case "copy", "slice", "rest": // same top-level storage
+		if g, ok := first(); ok {
+			group[n.Name] = g
+			return
+		}
+		group[n.Name] = c06Store{top: fresh, deep: map[int]bool{}}
+	case "nest": // a new container holding the variable
+		group[n.Name] = c06Store{top: fresh, deep: deepOf(true)}
+	case "call":
+		if rhs.K == gt.KCall && len(rhs.Kids) >= 2 && rhs.Kids[0].Name != "app" {
+			if g, ok := group[rhs.Kids[1].Name]; ok { // mutA/mutM return their (shared) parameter
+				// ... or, for an argument equal to an earlier one, the memoized result object of that earlier call:
+				// all results of one function may share (negative ids name the per-function cache)
+				cid := -1 - int(fnv64(rhs.Kids[0].Name)%1000)
+				d := map[int]bool{cid: true}
+				for id := range g.deep {
+					d[id] = true
+				}
+				group[n.Name] = c06Store{top: g.top, deep: d}
+				return
+			}
+		}
+		group[n.Name] = c06Store{top: fresh, deep: deepOf(false)}
+	default: // bind, plus (+ and *): new top-level storage, elements copied shallowly
+		group[n.Name] = c06Store{top: fresh, deep: deepOf(false)}
+	}
 }
 
 func (p c06) one(c *fw.Ctx, steps []c06Step) {
